@@ -48,8 +48,12 @@ def _run_one(case):
     from harness import impl
     signal.signal(signal.SIGALRM, _alarm)
     signal.alarm(30)
+    src = case.get("src", case["prog"])
+    case["prog"] = core.expand(src)
     try:
-        seen = impl.run_program(case["prog"], case.get("flav"))
+        seen = impl.run_program(src, case.get("flav"))
+        if len(seen) != len(case["prog"]):
+            raise RuntimeError("observation count mismatch %d != %d" % (len(seen), len(case["prog"])))
     except _Timeout:
         seen = [{"t": "err", "e": "other", "type": "Timeout", "msg": "case timed out"}] * len(case["prog"])
     except Exception as exc:  # harness error
@@ -68,7 +72,7 @@ def _run_one(case):
     except Exception as exc:
         exp, bad = None, [-1]
         seen = seen + [{"t": "err", "e": "other", "type": "Oracle:" + type(exc).__name__, "msg": str(exc)[:200]}]
-    return case["id"], seen, bad, exp
+    return case["id"], seen, bad, exp, case["prog"], src
 
 
 def run_impl(cases):
@@ -77,9 +81,9 @@ def run_impl(cases):
     with ctx.Pool(JOBS, initializer=_init_worker) as pool:
         out = pool.map(_run_one, cases, chunksize=max(1, len(cases) // (JOBS * 8) or 1))
     by_id = {c["id"]: c for c in cases}
-    for cid, seen, bad, exp in out:
+    for cid, seen, bad, exp, flat, src in out:
         c = by_id[cid]
-        c["seen"], c["oracle"], c["expected"] = seen, bad, exp
+        c["seen"], c["oracle"], c["expected"], c["prog"], c["src"] = seen, bad, exp, flat, src
     return cases
 
 
